@@ -200,3 +200,37 @@ Theorem C06_backup_step_unserialised_refuted : exists oldf oldb newf newb,
 Proof. exact unlocked_outcome_depends_on_schedule. Qed.
 Print Assumptions C06_backup_step_orders_agree.
 Print Assumptions C06_backup_step_unserialised_refuted.
+
+(* ---- further functions on this property's path, pinned token for token as validated (dependency review after rounds 5 and 6:
+   each missed change had edited a pinned function that this property did not cite) ---- *)
+From XcpPins Require Import Pin_operations_copy_file Pin_operations_finalise_copy Pin_parblock_queue_file_blocks Pin_operations_tree_walker Pin_linux_copy_node Pin_backup_needs_backup Pin_backup_next_backup_num Pin_backup_ls_file_dir Pin_parfile_copy Pin_parblock_copy.
+Theorem C06_src_pin_operations_copy_file : pin_unchanged name_operations_copy_file.
+Proof. exact pin_operations_copy_file. Qed.
+Theorem C06_src_pin_operations_finalise_copy : pin_unchanged name_operations_finalise_copy.
+Proof. exact pin_operations_finalise_copy. Qed.
+Theorem C06_src_pin_parblock_queue_file_blocks : pin_unchanged name_parblock_queue_file_blocks.
+Proof. exact pin_parblock_queue_file_blocks. Qed.
+Theorem C06_src_pin_operations_tree_walker : pin_unchanged name_operations_tree_walker.
+Proof. exact pin_operations_tree_walker. Qed.
+Theorem C06_src_pin_linux_copy_node : pin_unchanged name_linux_copy_node.
+Proof. exact pin_linux_copy_node. Qed.
+Theorem C06_src_pin_backup_needs_backup : pin_unchanged name_backup_needs_backup.
+Proof. exact pin_backup_needs_backup. Qed.
+Theorem C06_src_pin_backup_next_backup_num : pin_unchanged name_backup_next_backup_num.
+Proof. exact pin_backup_next_backup_num. Qed.
+Theorem C06_src_pin_backup_ls_file_dir : pin_unchanged name_backup_ls_file_dir.
+Proof. exact pin_backup_ls_file_dir. Qed.
+Theorem C06_src_pin_parfile_copy : pin_unchanged name_parfile_copy.
+Proof. exact pin_parfile_copy. Qed.
+Theorem C06_src_pin_parblock_copy : pin_unchanged name_parblock_copy.
+Proof. exact pin_parblock_copy. Qed.
+Print Assumptions C06_src_pin_operations_copy_file.
+Print Assumptions C06_src_pin_operations_finalise_copy.
+Print Assumptions C06_src_pin_parblock_queue_file_blocks.
+Print Assumptions C06_src_pin_operations_tree_walker.
+Print Assumptions C06_src_pin_linux_copy_node.
+Print Assumptions C06_src_pin_backup_needs_backup.
+Print Assumptions C06_src_pin_backup_next_backup_num.
+Print Assumptions C06_src_pin_backup_ls_file_dir.
+Print Assumptions C06_src_pin_parfile_copy.
+Print Assumptions C06_src_pin_parblock_copy.
